@@ -210,6 +210,13 @@ class C04(Check):
                     cands.append((a[:i] + a[i + 1:], e))
                 if i < len(e):
                     cands.append((a, e[:i] + e[i + 1:]))
+            # simplify a line: take its outer blanks away
+            for i, s in enumerate(a):
+                if s != s.strip():
+                    cands.append((a[:i] + [s.strip()] + a[i + 1:], e))
+            for i, s in enumerate(e):
+                if s != s.strip():
+                    cands.append((a, e[:i] + [s.strip()] + e[i + 1:]))
             for (a2, e2) in cands:
                 if self.kind_at(a2, e2, point)[0] == kind:
                     a, e, changed = a2, e2, True
